@@ -1232,4 +1232,42 @@ theorem addon_order_as_assumed :
     addonBefore "ProxyAuth" "NextLayer" = true := by
   decide +kernel
 
+/-! ## audit round 6 (cross-audit): further non-vacuity witnesses, evaluated by the kernel -/
+
+-- `replay_creds_confined`: there ARE replay writes that carry the credential (upstream: to the proxy; reverse: only to the target)
+example : replayWrites true .upstream false false = [⟨.proxy, .request, false, some .proxyAuthorization⟩] ∧
+    replayWrites true .reverse false true = [⟨.reverseTarget, .request, false, some .authorization⟩] ∧
+    replayWrites true .reverse false false = [⟨.originDirect, .request, false, none⟩] ∧
+    replayWrites true .regular true false = [⟨.originDirect, .request, true, none⟩] := by decide +kernel
+
+-- `transparent_dest_ignores_host`: its hypothesis holds in a reachable state (reverse mode, fresh connection; and inside a
+-- client tunnel in upstream mode), and the two requests really name different hosts / schemes
+example : (Mode.reverse.isHttpProxy && (Route.CState.init .reverse).phase == .outer) = false ∧
+    (Route.rstep true .reverse false (Route.CState.init .reverse) (.req 7 80 false)).2 =
+      (Route.rstep true .reverse false (Route.CState.init .reverse) (.req 9 443 true)).2 ∧
+    (Route.rstep true .reverse false (Route.CState.init .reverse) (.req 7 80 false)).2.writes =
+      [⟨.request, some .authorization⟩] := by decide +kernel
+
+-- `scheme_change_uses_other_connection`: both hypotheses `conn = some c` hold together after a non-empty history
+-- (the http connection to host 1 port 80 exists already) and the two connections differ
+example :
+    let s := (Route.rstep true .upstream false (Route.CState.init .upstream) (.req 1 80 false)).1
+    (Route.rstep true .upstream false s (.req 1 80 false)).2.conn.map (·.idx) = some 0 ∧
+    (Route.rstep true .upstream false s (.req 1 80 true)).2.conn.map (·.idx) = some 1 ∧
+    (Route.rstep true .upstream false s (.req 1 80 true)).2.writes =
+      [⟨.connect, some .proxyAuthorization⟩, ⟨.request, none⟩] := by decide +kernel
+
+-- `transparent_histories_ignore_hosts`: two different histories (other hosts, ports, schemes, CONNECT targets) with the
+-- same erased form, on reverse / transparent connections, and the common result is not trivial
+example :
+    let modes : Nat → Mode := fun c => if c = 0 then .reverse else .transparent
+    let es1 : List (Nat × Bool × Route.REv) := [(0, true, .req 7 80 false), (1, true, .req 7 80 false), (1, false, .connect 5 443), (0, true, .drop), (0, true, .req 7 80 false)]
+    let es2 : List (Nat × Bool × Route.REv) := [(0, true, .req 9 8443 false), (1, true, .req 2 81 false), (1, false, .connect 6 80), (0, true, .drop), (0, true, .req 3 1 false)]
+    es1 ≠ es2 ∧
+    es1.map (fun x => (x.1, x.2.1, evOf x.2.2)) = es2.map (fun x => (x.1, x.2.1, evOf x.2.2)) ∧
+    Route.rrunVar modes (Route.RState.init modes) es1 = Route.rrunVar modes (Route.RState.init modes) es2 ∧
+    (Route.rrunVar modes (Route.RState.init modes) es1).map (fun x => (x.2.kind, x.2.writes)) =
+      [(.response, [⟨.request, some .authorization⟩]), (.response, [⟨.request, none⟩]), (.invalid, []), (.noop, []),
+       (.response, [⟨.request, some .authorization⟩])] := by decide +kernel
+
 end MitmVerif.Props.C24
